@@ -128,6 +128,25 @@ pub fn judge_cell(ctx: &mut Ctx, layer: &'static Layer, depth: u8, h: u64, rng: 
       }}
     }
   }
+  // the free-function wrappers nested::f(depth, ...) must agree bit for bit with the Layer methods
+  if heavy {
+    ctx.eval();
+    let (ox, oy) = (0.25 + 0.5 * rng.f(), 0.25 + 0.5 * rng.f());
+    let r = catch(|| {
+      let mut bad: Vec<&'static str> = Vec::new();
+      if nested::center(depth, h) != layer.center(h) { bad.push("center"); }
+      if nested::vertices(depth, h) != layer.vertices(h) { bad.push("vertices"); }
+      if nested::sph_coo(depth, h, ox, oy) != layer.sph_coo(h, ox, oy) { bad.push("sph_coo"); }
+      if nested::hash_with_dxdy(depth, c.0, c.1) != layer.hash_with_dxdy(c.0, c.1) { bad.push("hash_with_dxdy"); }
+      if nested::hash(depth, c.0, c.1) != layer.hash(c.0, c.1) { bad.push("hash"); }
+      if nested::grid(depth, h, 3)[..] != layer.grid(h, 3)[..] { bad.push("grid"); }
+      if nested::path_along_cell_edge(depth, h, &Cardinal::E, true, 3)[..] != layer.path_along_cell_edge(h, &Cardinal::E, true, 3)[..] { bad.push("path_along_cell_edge"); }
+      if nested::path_along_cell_side(depth, h, &Cardinal::N, &Cardinal::W, true, 3)[..] != layer.path_along_cell_side(h, &Cardinal::N, &Cardinal::W, true, 3)[..] { bad.push("path_along_cell_side"); }
+      if nested::n_hash(depth) != n_hash(depth) || layer.n_hash() != n_hash(depth) || layer.depth() != depth { bad.push("n_hash/depth"); }
+      bad
+    });
+    match r { Ok(bad) => for b in bad { ctx.violation("free-function-wrapper-differs-from-Layer-method", cell("cell").s("fn", b), b.to_string()); }, Err(p) => ctx.violation("free-function-wrapper-panics", cell("cell"), p) }
+  }
   let cls = cell_class(depth, h);
   if !cls.is_empty() { ctx.hard(&format!("cell:{}", cls), &[depth as u64, h]); if depth > 8 && ctx.samples.len() < 5 && h % 5 == 0 { ctx.sample(&cell("cell"), &format!("class={} centre={:?}", cls, c)); } } else { ctx.bump("plain-cells"); }
 }
